@@ -93,7 +93,7 @@ def rejS : Rej → String
   | .badType => "0:mod"
   | .typeUnset => "400:val" | .typeUnknown => "400:val" | .vaZero => "400:val" | .vbBeforeVa => "400:val"
   | .dvaZero => "403:dval" | .dpast => "403:dval" | .dvbBeforeVa => "403:dval" | .dbadType => "403:dval"
-  | .noValidity => "400:renew" | .renewPeriod => "400:renew"
+  | .noValidity => "400:renew" | .renewPeriod => "400:renew" | .renewShort => "500:cas"
 
 def outS {α : Type} (f : α → String) : Out α → String
   | .ok a => "ok " ++ f a
@@ -190,7 +190,12 @@ def eval (line : String) : Option String := do
     match x509Leaf cl m now vnow c so with
     | .ok leaf =>
       let head := s!"ok nb={timeS leaf.nb} na={timeS leaf.na}"
-      if (get "cas") = some "1" then
+      if (get "cas") = some "lt" then
+        -- a lifetime-based CAS: what signX509 hands over, and whether anything is issued
+        match lifetimeCasCreate now leaf so.backdate with
+        | .ok _ => pure s!"ok lt={casLifetime leaf so.backdate} dok=1"
+        | r => pure ((if e2e then e2eS else outS) (fun _ => "") r)
+      else if (get "cas") = some "1" then
         match softcasCreate now leaf so.backdate with
         | .ok c => pure ((if e2e then "ok" else head) ++ s!" cert={c.nb / second},{c.na / second}")
         | r => pure ((if e2e then e2eS else outS) (fun _ => "") r)
@@ -233,7 +238,15 @@ def eval (line : String) : Option String := do
     let casnow ← time? (← get "casnow")
     let bd ← int? (← get "bd")
     let old : Cert := ⟨(← time? (← get "onb")), (← time? (← get "ona"))⟩
-    pure (outS (fun c => s!"d={(c.na - c.nb) / second} nboff={c.nb - trunc (casnow - bd)}") (x509Renew casnow bd old))
+    -- lv=1: also say whether the new certificate expires after the CAS clock (asked only when the margin is ≥ 2 s)
+    let live := fun (c : Cert) => if (get "lv") = some "1" then (if casnow < c.na then " live=1" else " live=0") else ""
+    if (get "lt") = some "1" then
+      -- the lifetime renewContext hands to the CAS
+      match x509Renew casnow bd old with
+      | .ok c => pure (s!"ok lt={wrap64 (tsub old.na old.nb - bd)} d={(c.na - c.nb) / second} nboff={c.nb - trunc (casnow - bd)}" ++ live c)
+      | r => pure (outS (fun _ => "") r)
+    else
+    pure (outS (fun c => s!"d={(c.na - c.nb) / second} nboff={c.nb - trunc (casnow - bd)}" ++ live c) (x509Renew casnow bd old))
   | "sshrenew" | "sshrekey" =>
     let anow ← time? (← get "anow")
     let bd ← int? (← get "bd")
@@ -242,7 +255,8 @@ def eval (line : String) : Option String := do
              else do
                let cl ← claimer? kv
                pure (sshRekey cl anow (← time? (← get "pnow")) bd old))
-    pure (e2eS (fun c => s!"d={(c.vb - c.va).toNat} vaoff={(c.va.toNat : Int) - unixOf (anow - bd)}") r)
+    let live := fun (c : SshCert) => if (get "lv") = some "1" then (if unixOf anow < (c.vb.toNat : Int) then " live=1" else " live=0") else ""
+    pure (e2eS (fun c => s!"d={(c.vb - c.va).toNat} vaoff={(c.va.toNat : Int) - unixOf (anow - bd)}" ++ live c) r)
   | "sshgate" =>
     let unow ← int? (← get "unow")
     let anow ← time? (← get "anow")
